@@ -62,8 +62,12 @@ func newInstance(e Entry) (*instance, []string) {
 			problems = append(problems, fmt.Sprintf("no field %sFunc", m.Name))
 			continue
 		}
-		if !in.meth(m.Name).IsValid() || !in.calls(m.Name).IsValid() {
-			problems = append(problems, fmt.Sprintf("no method %s or accessor %sCalls", m.Name, m.Name))
+		if !in.meth(m.Name).IsValid() {
+			problems = append(problems, fmt.Sprintf("no method %s", m.Name))
+			continue
+		}
+		if !in.calls(m.Name).IsValid() {
+			problems = append(problems, fmt.Sprintf("C04:no accessor %sCalls for method %s", m.Name, m.Name))
 			continue
 		}
 		md := method{Name: m.Name, Sig: f.Type(), Variadic: f.Type().IsVariadic(), TokParam: -1}
